@@ -303,6 +303,8 @@ def run_check(check: Check, tier: str, seed: int, budget_s: float | None = None,
                     unknown = [v for v in payload["result"]["violations"] if not match_known(check.pid, v, known)]
                     if unknown and (first_violation_index is None or tag < first_violation_index):
                         first_violation_index = tag
+                        if os.environ.get("RSIM_KEEP_GOING"):
+                            continue
                         # stop generating beyond what is already in flight: the lowest failing
                         # index among completed+in-flight runs is then deterministic
                         stop_submitting = True
@@ -350,6 +352,17 @@ def run_check(check: Check, tier: str, seed: int, budget_s: float | None = None,
     exit_code = 0
     replay_path = None
     if violations:
+        by_clause: dict[str, int] = {}
+        for _i, _v in violations:
+            by_clause[f"{_v['clause']}/{_v.get('key', '')}"] = by_clause.get(f"{_v['clause']}/{_v.get('key', '')}", 0) + 1
+        print(f"[rsim] violations by clause/key: {by_clause}", flush=True)
+        if os.environ.get("RSIM_KEEP_GOING"):
+            seen = set()
+            for _i, _v in violations:
+                ck = f"{_v['clause']}/{_v.get('key', '')}"
+                if ck not in seen:
+                    seen.add(ck)
+                    print(f"[rsim]   e.g. run {_i}: {ck}: {_v.get('detail', '')[:600]}", flush=True)
         idx, v = violations[0]
         case = cases[idx]
         print(f"[rsim] violation in run {idx}: clause={v['clause']} {v.get('detail', '')[:400]}", flush=True)
